@@ -379,9 +379,10 @@ impl Family for C07Family {
                             // concurrency another ceremony may have moved the stored value since:
                             // that race is C19's clause, not this one's)
                             let seen = found.iter().find(|f| f.id == cred.id).and_then(|f| f.counter);
-                            let plus_one = seen.is_some()
-                                && seen != Some(u32::MAX)
-                                && cred.counter == seen.map(|c| c.wrapping_add(1))
+                            let by_lookup = seen.is_some() && seen != Some(u32::MAX) && cred.counter == seen.map(|c| c.wrapping_add(1));
+                            // ... or relative to what the store held at the moment of the write
+                            let by_store = prev.counter.is_some() && prev.counter != Some(u32::MAX) && cred.counter == prev.counter.map(|c| c.wrapping_add(1));
+                            let plus_one = (by_lookup || by_store)
                                 && (single || prev.counter.is_some())
                                 && (!single || prev.counter == seen)
                                 && **cred == prev.with_counter(cred.counter);
